@@ -1871,6 +1871,20 @@ class Sym:
                 r = self.array_find(args, st)
                 if r is not None:
                     return r
+            if name in ('countr_zero', 'countl_zero', 'popcount', 'bit_width', 'has_single_bit', 'countr_one') and recv is None \
+                    and len(args) == 1 and isinstance(args[0], tuple) and args[0][:1] == ('k',) and isinstance(args[0][1], int) \
+                    and (callee.get('q') or callee['id']).startswith('std::'):
+                # <bit> on a constant: folded (the operand's width from the instantiation)
+                x = args[0][1]
+                w = 64
+                for tn, (bits, _sg) in _INT_TYPES.items():
+                    if callee['id'].startswith(f'std::{name}<{tn}>'):
+                        w = bits
+                x &= (1 << w) - 1
+                val = {'countr_zero': (x & -x).bit_length() - 1 if x else w, 'countl_zero': w - x.bit_length(), 'popcount': bin(x).count('1'),
+                       'bit_width': x.bit_length(), 'has_single_bit': int(x != 0 and x & (x - 1) == 0),
+                       'countr_one': ((~x & (x + 1)).bit_length() - 1)}[name]
+                return [(st, ('k', val, 'int'))]
             if name in ('size', 'ssize') and recv is None and len(args) == 1:
                 import re as _re
                 m = _re.search(r'\(&\)\[(\d+)\]\)\s*$', callee['id'])
